@@ -566,6 +566,10 @@ def execute(scenario, chooser):
                timing['mode'], timing.get('where', ''),
                len(sc['followers']))}
     probes = res['probes']
+    res['faults'] = {'stop_request': 1 + (sc.get('pre_stop') is not None),
+                     'stall': sim.stats.get('stall', 0),
+                     'spin_advance': sim.stats.get('spin_advance', 0),
+                     'thread_preemption': sim.switches}
     if 'compile_error' in st:
         res['harness_error'] = 'script rejected: {}\n{}'.format(
             st['compile_error'], sc['main'])
